@@ -1522,6 +1522,17 @@ def c10_frame_case(kind, payload, ch):
         kl, n_ = catching(len, f)
         if kl == 'ok' and n_ != len(payload):
             return ('len(body) == %d' % len(payload), n_)
+    elif kind == 'bodyarr':
+        # a buffer whose items are wider than one octet (an array, a memoryview of one): its octets are the content
+        import array as _array
+        typecode, items, as_view = payload
+        arr_ = _array.array(typecode, items)
+        f = body.ContentBody(memoryview(arr_) if as_view else arr_)
+        payload = arr_.tobytes()
+        kind = 'body'
+        kl, n_ = catching(len, f)
+        if kl == 'ok' and n_ != len(payload):
+            return ('len(body) == %d octets' % len(payload), n_)
     else:
         f = heartbeat.Heartbeat()
     k, b = catching(frame.marshal, f, ch)
@@ -1619,6 +1630,13 @@ def oracle_c10(ctx):
         if k != 'ok' or bad:
             res.violation('content header body size %r' % (n,), {'fn': 'c10_header_size_case', 'args': pyrepr((n,))},
                           bad[0] if k == 'ok' else 'oracle runs', bad[1] if k == 'ok' else repr(bad))
+    for typecode, items in [('H', [1, 2, 3]), ('H', []), ('I', [0xCE, 2 ** 32 - 1]), ('d', [1.5]), ('b', [-1, 1]), ('Q', list(range(40))), ('B', [1, 2, 3])]:
+        for as_view in (True, False):
+            res.case('bodyarr %s %d %s' % (typecode, len(items), as_view), tag='array body')
+            k, bad = catching(c10_frame_case, 'bodyarr', (typecode, items, as_view), 1)
+            if k != 'ok' or bad:
+                res.violation('body given as a buffer of %s items' % typecode, {'fn': 'c10_frame_case', 'args': pyrepr(('bodyarr', (typecode, items, as_view), 1))},
+                              bad[0] if k == 'ok' else 'oracle runs', bad[1] if k == 'ok' else repr(bad))
     # the primitive encoders called directly with a value of ANY type: refused, or decodes back to it
     g.exotic = True
     pvals = [2 ** 53, 2 ** 53 + 1, -2 ** 53 - 1, 2 ** 63 - 1, 10 ** 22 + 1, 2 ** 24 + 1, 16777217.0, 1, 0, -1, 255, 256, True, False, 1.0, 0.5, '1', b'1',
